@@ -55,12 +55,15 @@ type Exec struct {
 	Registry                bool    // also check session gauge and frame workers (C07)
 	Gauge0                  float64 // gauge value when the case started
 	lat                     map[int]*latRun
+	G0                      int                           // goroutines in the process when the case started
+	applied                 map[int]map[int32]int         // slot -> broadcast type -> count applied to its view
+	unsubAt                 map[*MSession]map[uint32]bool // types that lost a subscriber
 	actorBefore, actorAfter *MSession
 	stepTags                string
 }
 
 func NewExec(d Driver, cfg Config) *Exec {
-	return &Exec{D: d, Cfg: cfg, M: NewModel(), cur: map[int]int{}, delta: map[int][]Rx{}, nextReq: 100, Labels: map[string]int{}, lat: map[int]*latRun{}}
+	return &Exec{D: d, Cfg: cfg, M: NewModel(), cur: map[int]int{}, delta: map[int][]Rx{}, nextReq: 100, Labels: map[string]int{}, lat: map[int]*latRun{}, applied: map[int]map[int32]int{}, unsubAt: map[*MSession]map[uint32]bool{}}
 }
 
 func (e *Exec) fail(tags string, format string, a ...any) {
@@ -91,6 +94,8 @@ func (e *Exec) collect() {
 					continue
 				}
 				e.delta[slot] = append(e.delta[slot], rx)
+				// replicas are updated in arrival order
+				e.applyBroadcast(e.M.Conns[slot], rx)
 			}
 			e.cur[slot] = len(in)
 		}
@@ -412,6 +417,7 @@ func (e *Exec) leftovers(actor *MConn) {
 			} else if actor != nil && mc != nil && (mc.Sess == nil || (mc.Sess != e.actorBefore && mc.Sess != e.actorAfter)) {
 				tags = "C03,C02"
 			}
+			tags += "," + tagsForType(rx.T)
 			if e.stepTags != "" {
 				tags += "," + e.stepTags
 			}
@@ -419,6 +425,28 @@ func (e *Exec) leftovers(actor *MConn) {
 		}
 	}
 	e.delta = map[int][]Rx{}
+}
+
+func tagsForType(t int32) string {
+	switch t {
+	case TPoseBcast:
+		return "C11,C05"
+	case TCompAddBcast, TCompDelBcast, TCompUpdateBcast:
+		return "C12,C13"
+	case TCustomBcast:
+		return "C14"
+	case TActionBcast, TAssetBcast, TVikjaState, TOdalState:
+		return "C16"
+	case TEntityDelBcast:
+		return "C06,C05"
+	case TLeaveBcast, TJoinBcast:
+		return "C06,C07"
+	case TPingReq, TSignedLatencyResp:
+		return "C18"
+	case TError:
+		return "C04"
+	}
+	return "C04"
 }
 
 // others returns the slots of the members of s other than pid, sorted.
@@ -440,8 +468,11 @@ func (e *Exec) expectRelay(s *MSession, sender uint32, t int32, tags, what strin
 }
 
 func (e *Exec) expectRelayTo(slots []int, t int32, tags, what string, ok func(Rx) string) {
+	if len(slots) >= 2 {
+		e.label("relay_to_2plus")
+	}
 	for _, slot := range slots {
-		rx, found := e.take(slot, func(r Rx) bool { return r.T == t && ok(r) == "" })
+		_, found := e.take(slot, func(r Rx) bool { return r.T == t && ok(r) == "" })
 		if !found {
 			// is there one of the right type with wrong content?
 			if bad, f2 := e.take(slot, isType(t)); f2 {
@@ -449,9 +480,7 @@ func (e *Exec) expectRelayTo(slots []int, t int32, tags, what string, ok func(Rx
 			} else {
 				e.fail(tags, "%s: connection c%d did not receive %s", what, slot, typeName(t))
 			}
-			continue
 		}
-		e.applyBroadcast(e.M.Conns[slot], rx)
 	}
 }
 
@@ -546,6 +575,30 @@ func (e *Exec) departure(mc *MConn, tags string) {
 		e.label("departure_keeps_persistent")
 	}
 	os := others(s, mc.Pid)
+	if len(os) > 0 {
+		richP, richN := false, false
+		for _, id := range s.ownedBy(mc.Pid, nil) {
+			if hasAttachments(s, id) {
+				if s.Ents[id].Persist {
+					richP = true
+				} else {
+					richN = true
+				}
+			}
+		}
+		if richP && richN {
+			e.label("departure_rich")
+		}
+		if richN {
+			e.label("departure_removes_attachments")
+		}
+	}
+	for tid, subs := range s.Subs {
+		if subs[mc.Pid] {
+			e.label("departure_of_subscriber")
+			e.noteUnsub(s, tid)
+		}
+	}
 	for _, eid := range removed {
 		eid := eid
 		e.expectRelayTo(os, TEntityDelBcast, tags, fmt.Sprintf("departure of participant %d (entity %d removed)", mc.Pid, eid), func(r Rx) string {
@@ -577,6 +630,19 @@ func (e *Exec) departure(mc *MConn, tags string) {
 	mc.PendingPose = map[uint32]*Step{}
 	mc.PendingComp = map[CompKey]*Step{}
 	delete(e.lat, mc.Slot)
+}
+
+func (e *Exec) noteUnsub(s *MSession, tid uint32) {
+	if e.unsubAt[s] == nil {
+		e.unsubAt[s] = map[uint32]bool{}
+	}
+	e.unsubAt[s][tid] = true
+}
+
+func (e *Exec) noteCompChange(s *MSession, tid uint32) {
+	if e.unsubAt[s][tid] {
+		e.label("comp_change_after_unsubscribe")
+	}
 }
 
 func (e *Exec) doClose(mc *MConn) {
@@ -650,6 +716,12 @@ func (e *Exec) doJoin(mc *MConn, st Step, req uint32) {
 		e.M.Live = append(e.M.Live, target)
 	} else {
 		e.label("join_existing")
+		if len(target.Ents) > 0 {
+			e.label("join_existing_with_entities")
+		}
+		if len(target.Comps) > 0 || len(target.Actions) > 0 || len(target.Assets) > 0 {
+			e.label("join_existing_with_attachments")
+		}
 		if jr.SessionId != target.ID {
 			e.fail("C07,C04", "joined %q but the response names session %q", target.ID, jr.SessionId)
 			return
@@ -683,7 +755,8 @@ func (e *Exec) doJoin(mc *MConn, st Step, req uint32) {
 	e.initViewFromSessionState(mc, ss.M.(*hagallpb.SessionState))
 	e.takeModuleStates(mc, "C01,C16", true)
 	if d := diffView(v, target); len(d) > 0 {
-		e.fail("C01,C06,C16,C12,C07", "state handed to newcomer (participant %d of %q) differs from the session's state: %s", pid, target.ID, strings.Join(d, "; "))
+		dt, dm := joinDiffs(d)
+		e.fail("C01,"+dt, "state handed to newcomer (participant %d of %q) differs from the session's state: %s", pid, target.ID, dm)
 	}
 
 	e.expectRelay(target, pid, TJoinBcast, "C02", fmt.Sprintf("join of participant %d", pid), func(r Rx) string {
@@ -799,8 +872,21 @@ func (e *Exec) applyBroadcast(mc *MConn, rx Rx) {
 		return
 	}
 	v := mc.View
+	if e.applied[mc.Slot] == nil {
+		e.applied[mc.Slot] = map[int32]int{}
+	}
+	e.applied[mc.Slot][rx.T]++
+	if a := e.applied[mc.Slot]; len(a) >= 2 {
+		n := 0
+		for _, c := range a {
+			n += c
+		}
+		if n >= 3 {
+			e.label("observer_3_broadcasts_2_kinds")
+		}
+	}
 	bad := func(format string, a ...any) {
-		e.fail("C01"+e.stepTagSuffix(), "connection c%d (participant %d) was sent a broadcast it cannot apply: %s: %s", mc.Slot, mc.Pid, rx, fmt.Sprintf(format, a...))
+		e.fail("C01,"+tagsForType(rx.T)+e.stepTagSuffix(), "connection c%d (participant %d) was sent a broadcast it cannot apply: %s: %s", mc.Slot, mc.Pid, rx, fmt.Sprintf(format, a...))
 	}
 	switch m := rx.M.(type) {
 	case *hagallpb.ParticipantJoinBroadcast:
@@ -912,7 +998,8 @@ func (e *Exec) checkViews() {
 			continue
 		}
 		if d := diffView(mc.View, mc.Sess); len(d) > 0 {
-			e.fail("C01"+e.stepTagSuffix(), "replicated view of connection c%d (participant %d of %q) differs from the session state: %s", slot, mc.Pid, mc.Sess.ID, strings.Join(d, "; "))
+			dt, dm := joinDiffs(d)
+			e.fail("C01,"+dt+e.stepTagSuffix(), "replicated view of connection c%d (participant %d of %q) differs from the session state: %s", slot, mc.Pid, mc.Sess.ID, dm)
 			return
 		}
 	}
@@ -1010,7 +1097,6 @@ func (e *Exec) doEntityDel(mc *MConn, st Step, req uint32) {
 		}
 		s.removeEntity(eid)
 		mc.View.removeEntity(eid)
-		delete(mc.PendingPose, eid)
 		e.expectRelay(s, mc.Pid, TEntityDelBcast, "C02", fmt.Sprintf("entity delete %d", eid), func(r Rx) string {
 			b := r.M.(*hagallpb.EntityDeleteBroadcast)
 			if b.EntityId != eid {
@@ -1095,12 +1181,14 @@ func (e *Exec) tick() {
 // its members processed (latest per entity / per component).
 func (e *Exec) advance(d time.Duration) {
 	e.actorBefore, e.actorAfter = nil, nil
-	e.stepTags = "C11,C12,C13"
+	e.stepTags = ""
 	t0 := time.Now()
 	e.D.Advance(d)
 	t1 := time.Now()
 	e.collect()
 	fr := e.D.Frame()
+	cands := map[*MSession]map[CompKey][][]byte{}
+	defer func() { e.reconcileCompConflicts(cands) }()
 	ticked := map[*MSession]bool{}
 	for _, s := range e.M.Live {
 		if t1.Sub(s.Born)/fr > t0.Sub(s.Born)/fr {
@@ -1187,10 +1275,12 @@ func (e *Exec) advance(d time.Duration) {
 				continue
 			}
 			e.label("comp_update_applied")
+			e.noteCompChange(s, k.Tid)
 			data := bodyOf(*st)
 			if data == nil {
 				data = []byte{}
 			}
+			cands[s] = appendCand(cands[s], k, data)
 			s.Comps[k] = data
 			if mc.View.CompDef[k.Tid] {
 				mc.View.Comps[k] = data
@@ -1428,6 +1518,7 @@ func (e *Exec) doCompAdd(mc *MConn, st Step, req uint32) {
 		return
 	}
 	e.label("comp_add")
+	e.noteCompChange(s, tid)
 	if _, ok := e.take(mc.Slot, isResp(TCompAddResp, req)); !ok {
 		e.fail("C04,C12", "component add %d not answered with COMP_ADD_RESPONSE: %v", req, e.delta[mc.Slot])
 		return
@@ -1482,13 +1573,13 @@ func (e *Exec) doCompDel(mc *MConn, st Step, req uint32) {
 		e.expectError(mc, req, "C04,C12", fmt.Sprintf("delete of component (%d,%d) which does not exist", tid, eid), cNotFound)
 	default:
 		e.label("comp_del")
+		e.noteCompChange(s, tid)
 		if _, ok := e.take(mc.Slot, isResp(TCompDelResp, req)); !ok {
 			e.fail("C04,C12", "component delete %d not answered with COMP_DELETE_RESPONSE: %v", req, e.delta[mc.Slot])
 			return
 		}
 		delete(s.Comps, k)
 		delete(mc.View.Comps, k)
-		delete(mc.PendingComp, k)
 		if s.hasSubs(tid) {
 			e.label("comp_del_notified")
 			e.expectRelay(s, mc.Pid, TCompDelBcast, "C13,C02,C12", fmt.Sprintf("delete of component (%d,%d)", tid, eid), func(r Rx) string {
@@ -1530,6 +1621,9 @@ func (e *Exec) listType(mc *MConn, tid uint32, req uint32) {
 		return
 	}
 	e.label("comp_list")
+	if e.Labels["comp_del"] > 0 || e.Labels["entity_del_with_attachments"] > 0 {
+		e.label("comp_list_after_delete")
+	}
 	got := map[CompKey][]byte{}
 	for _, c := range rx.M.(*hagallpb.EntityComponentListResponse).EntityComponents {
 		k := CompKey{c.EntityComponentTypeId, c.EntityId}
@@ -1614,6 +1708,7 @@ func (e *Exec) doSub(mc *MConn, st Step, req uint32) {
 	}
 	if s.Subs[tid][mc.Pid] {
 		e.label("unsub")
+		e.noteUnsub(s, tid)
 	} else {
 		e.label("unsub_not_subscribed")
 	}
@@ -1871,5 +1966,49 @@ func (e *Exec) doReceipt(mc *MConn, st Step, req uint32) {
 			e.fail("C19", "receipt queue holds %d receipts, %d were accepted", len(q), e.M.Receipts)
 		}
 		e.unexpectedEnd(mc, "C04,C19,C08")
+	}
+}
+
+func appendCand(m map[CompKey][][]byte, k CompKey, d []byte) map[CompKey][][]byte {
+	if m == nil {
+		m = map[CompKey][][]byte{}
+	}
+	m[k] = append(m[k], d)
+	return m
+}
+
+// reconcileCompConflicts: when several members updated the same component in
+// the same frame, which update is processed last is not specified; the model
+// adopts the server's value if it is one of the candidates.
+func (e *Exec) reconcileCompConflicts(cands map[*MSession]map[CompKey][][]byte) {
+	store := e.D.Store()
+	for s, m := range cands {
+		for k, ds := range m {
+			if len(ds) < 2 {
+				continue
+			}
+			e.label("comp_update_conflict_same_frame")
+			ss, ok := store.GetByGlobalID(s.ID)
+			if !ok {
+				continue
+			}
+			for _, c := range ss.GetEntityComponents().List(k.Tid) {
+				if c.EntityId != k.Eid {
+					continue
+				}
+				for _, d := range ds {
+					if bytes.Equal(d, c.Data) {
+						s.Comps[k] = d
+						// the sender of the winning update knows its own value; other senders
+						// that subscribe received the winner's broadcast after their own
+						for _, slot := range s.Members {
+							if mc := e.M.Conns[slot]; mc != nil && mc.View != nil && mc.View.CompDef[k.Tid] {
+								mc.View.Comps[k] = d
+							}
+						}
+					}
+				}
+			}
+		}
 	}
 }
